@@ -155,7 +155,7 @@ func (e *Engine) isRepoPath(p string) bool {
 func (e *Engine) missingContractTargets() []string {
 	var missing []string
 	for k, fs := range e.spec.Funcs {
-		if _, ok := e.fnByName[k]; !ok && !fs.Trusted {
+		if _, ok := e.fnByName[k]; !ok && !fs.Trusted && !fs.Implementations {
 			missing = append(missing, k)
 		}
 	}
@@ -217,4 +217,73 @@ func (e *Engine) pos(p token.Pos) string {
 		rel = ps.Filename
 	}
 	return fmt.Sprintf("%s:%d", rel, ps.Line)
+}
+
+type implInfo struct {
+	fn    *ssa.Function
+	recv  types.Type
+	iface types.Type
+}
+
+// implementations lists the methods implementing the interface method named by
+// key "pkg.(Iface).Method" in the packages under verification.
+func (e *Engine) implementations(key string) []implInfo {
+	i := strings.Index(key, ".(")
+	j := strings.Index(key, ").")
+	if i < 0 || j < 0 {
+		return nil
+	}
+	pkgName, ifName, mName := key[:i], key[i+2:j], key[j+2:]
+	tp := e.pkgByNm[pkgName]
+	if tp == nil {
+		return nil
+	}
+	obj, _ := tp.Scope().Lookup(ifName).(*types.TypeName)
+	if obj == nil {
+		return nil
+	}
+	it, ok := obj.Type().Underlying().(*types.Interface)
+	if !ok {
+		return nil
+	}
+	var out []implInfo
+	for p := range e.target {
+		sc := p.Scope()
+		names := sc.Names()
+		sort.Strings(names)
+		for _, n := range names {
+			tn, ok := sc.Lookup(n).(*types.TypeName)
+			if !ok || tn.IsAlias() {
+				continue
+			}
+			if _, isI := tn.Type().Underlying().(*types.Interface); isI {
+				continue
+			}
+			for _, T := range []types.Type{tn.Type(), types.NewPointer(tn.Type())} {
+				if !types.Implements(T, it) {
+					continue
+				}
+				sel := e.prog.MethodSets.MethodSet(T).Lookup(tp, mName)
+				if sel == nil {
+					sel = e.prog.MethodSets.MethodSet(T).Lookup(p, mName)
+				}
+				if sel == nil {
+					continue
+				}
+				fn := e.prog.MethodValue(sel)
+				if fn != nil && fn.Pkg == nil {
+					// promoted / pointer-receiver wrapper: verify the declared method
+					if fo, ok := sel.Obj().(*types.Func); ok {
+						fn = e.prog.FuncValue(fo)
+					}
+				}
+				if fn == nil || fn.Blocks == nil || fn.Pkg == nil {
+					continue
+				}
+				out = append(out, implInfo{fn, T, obj.Type()})
+				break
+			}
+		}
+	}
+	return out
 }
